@@ -254,6 +254,7 @@ def cases(tier, seed):
     out.append(dict(id='recipients', kind='recipients', seed=seed, reps=6 if thorough else 2))
     for kind in KINDS:
         out.append(dict(id='admin-%s' % kind, kind='admin', cose=kind, seed=seed * 149 + idx, reps=8 if thorough else 2))
+    out.append(dict(id='adjacent', kind='adjacent', seed=seed, reps=12 if thorough else 3))
     out.append(dict(id='keys', kind='keys', seed=seed))
     return out
 
@@ -448,6 +449,31 @@ def run_case(case):
                                                  '(deliveries %d, log %s)' % (label, len(delivered), log[:2])))
                             else:
                                 obs['multi_recipient_recovered'] += 1
+                        note(problems, data + bytes([accept]), label)
+        elif kind == 'adjacent':
+            # two confidentiality blocks next to each other in the block array, over different targets (two sources or two
+            # policies each added one): each is processed; with the second one's ciphertext altered nothing is released
+            from vf.props import c12
+            for rep in range(case['reps']):
+                for cls in ('two-adjacent-good', 'two-adjacent-second-bad'):
+                    data, plain, _desc = c12.build(cls, 'bcb', rng, False)
+                    for accept in (True, False):
+                        dst, log, err, _le = receive(data, 'enc0-256', 'all', accept)
+                        delivered = dst.delivered()
+                        obs['adjacent_bcb_runs'] = obs.get('adjacent_bcb_runs', 0) + 1
+                        label = '%s, accept=%s' % (cls, accept)
+                        problems = []
+                        if err is not None:
+                            problems.append(('raised', '%s: receive raised %s' % (label, type(err).__name__)))
+                        elif cls == 'two-adjacent-good':
+                            left = [blk for blk in (delivered[0]['blocks'] if delivered else []) if blk[0] == 12]
+                            if len(delivered) != 1 or (accept and (delivered[0]['payload'] != plain or left)):
+                                problems.append(('not-recovered', '%s: a receiver with the key did not recover exactly the plaintext of both targets '
+                                                 '(deliveries %d, confidentiality blocks left %s, log %s)' % (label, len(delivered), [(b[0], b[1]) for b in left], log[:3])))
+                            else:
+                                obs['plaintext_recovered'] += 1
+                        elif delivered and accept:
+                            problems.append(('accepted-altered', '%s: delivered although the ciphertext of the second block\'s target was altered' % label))
                         note(problems, data + bytes([accept]), label)
         elif kind == 'keys':
             for cose in KINDS:
